@@ -152,6 +152,12 @@ func (ex *Exec) contractModKeys(fx *fnExec, c *Contract, callee *ssa.Function, k
 		switch x.Kind {
 		case "select":
 			bt := typeOf(x.Args[0])
+			if bt == nil && x.Args[0].Kind == "ident" && callee.Pkg != nil {
+				// T.f: type-level frame
+				if tn, ok := callee.Pkg.Pkg.Scope().Lookup(x.Args[0].Name).(*types.TypeName); ok {
+					bt = tn.Type()
+				}
+			}
 			if bt == nil {
 				fail("cannot resolve modifies target %q of %s at the type level", m.Src, c.Key)
 			}
